@@ -481,7 +481,7 @@ struct CFront : public Front {
 
 // ------------------------------------------------------------------------------------------------ running scenarios as real tests
 struct TestCtx { const Scenario* sc; Front* front; Outcome* out; const Vec<size_t>* order; };
-static Vec<TestCtx> g_tests; static int g_current = -1;
+static Vec<TestCtx> g_tests; static int g_current = -1; static bool g_noPlugin = false;
 
 static void countCrashRequest() { if (g_current >= 0 && (size_t)g_current < g_tests.size()) g_tests[(size_t)g_current].out->crashes++; }
 static void scenarioBody() {
@@ -507,7 +507,7 @@ public:
         }
         scenarioBody();
     }
-    void teardown() CPPUTEST_OVERRIDE { TestCtx& T = g_tests[(size_t)g_current]; if (T.sc->preFail) T.front->check(*T.sc); }
+    void teardown() CPPUTEST_OVERRIDE { TestCtx& T = g_tests[(size_t)g_current]; if (T.sc->preFail || g_noPlugin) T.front->check(*T.sc); if (g_noPlugin) T.front->clear(); }      // without the mock plugin: the usual teardown, check then clear (a failing check leaves the teardown)
 };
 class ScenarioShell : public UtestShell {
 public:
@@ -554,6 +554,7 @@ struct Engine : public vf::Engine {
         bool cfront = profile == "cfront";
         int nScen = (int)w.range(1, 3);
         d.p["schedules"] = cfront ? 2 : w.range(2, 8);
+        d.p["no_plugin"] = !cfront && w.chance(1, 5);      // the tests check and clear the mock in their own teardown instead of having the mock plugin installed
         bool faultFree = f.chance(1, 3); d.p["fault_free"] = faultFree;
         for (int s = 0; s < nScen; s++) {
             Group G; G.tag = "scenario";
@@ -756,7 +757,7 @@ struct Engine : public vf::Engine {
         for (size_t i = 0; i < scs.size(); i++) { TestCtx t; t.sc = &scs[i]; t.front = &front; t.out = &outs[i]; t.order = &orders[i]; g_tests.push_back(t); }
         for (size_t i = 0; i < scs.size(); i++) shells.push_back(new (::malloc(sizeof(ScenarioShell))) ScenarioShell(names[i].c_str(), (int)i));
         for (size_t i = shells.size(); i-- > 0;) reg.addTest(shells[i]);
-        MockSupportPlugin plugin; reg.installPlugin(&plugin);
+        MockSupportPlugin plugin; if (!g_noPlugin) reg.installPlugin(&plugin);
         RecOutput out; TestResult res(out);
         UtestShell::setRethrowExceptions(false);
         UtestShell::setCrashMethod(countCrashRequest);
@@ -787,6 +788,7 @@ struct Engine : public vf::Engine {
         for (size_t g = 0; g < d.groups.size(); g++) if (d.groups[g].tag == "scenario") { Scenario sc; buildScenario(d.groups[g], sc); scs.push_back(sc); }
         if (scs.empty()) { r.hash = h.h; return; }
         bool cfront = d.profile == "cfront";
+        g_noPlugin = d.pi("no_plugin", 0) != 0; if (g_noPlugin) fired("tests_without_the_mock_plugin");
         int nSched = (int)d.pi("schedules", 2); if (nSched < 1) nSched = 1;
         CppFront cpp; CFront cfr;
         for (int k = 0; k < nSched && !r.hasWanted(); k++) {
